@@ -361,13 +361,13 @@ class LoopCallbackProtocol(Protocol):
         # a user callback may raise anything: one representative per class a handler in scope can tell apart
         # (ExitMainLoop; InterruptedError, which run()'s EINTR guard names; any other exception)
         k = st.fork(4)
-        _havoc_by_callback(st)
-        if k == 1:
-            raise PyRaise(SExc(ExitMainLoop, (), site="user callback"))
-        if k == 2:
-            raise PyRaise(SExc(Exception, ("<user callback raised>",), site="user callback"))
-        if k == 3:
-            raise PyRaise(SExc(InterruptedError, ("<user callback raised InterruptedError>",), site="user callback"))
+        # the rely is the loop's own public operations: another loop class brings its own (callback_havoc)
+        (getattr(ip.task.c, "callback_havoc", None) or _havoc_by_callback)(st)
+        exc = {1: SExc(ExitMainLoop, (), site="user callback"), 2: SExc(Exception, ("<user callback raised>",), site="user callback"),
+               3: SExc(InterruptedError, ("<user callback raised InterruptedError>",), site="user callback")}.get(k)
+        st.ghost["callback_raised"] = exc  # ghost: what the last user callback raised (None: it returned)
+        if exc is not None:
+            raise PyRaise(exc)
         return None
 
 
